@@ -754,7 +754,30 @@ pub fn run_c14(ctx: &mut Ctx, from: u64, to: u64, tiny: bool) {
         }
         let mut o = opts_for(ctx, k, TagMode::Maybe, tiny);
         o.max_text_len = o.max_text_len.min(200);
-        let case = gen_case(&mut rng, &o);
+        if k % 40 == 13 && !tiny {
+            o.tags = TagMode::Always;
+        }
+        let mut case = gen_case(&mut rng, &o);
+        if k % 40 == 13 && !tiny {
+            // the number of distinct character patterns (n-grams, words, tag n-grams) is padded to a multiple of 64
+            let mut pats: std::collections::BTreeSet<String> = case.model.char_ngram_model.iter().map(|d| d.ngram.clone()).collect();
+            pats.extend(case.model.dict_model.iter().map(|d| d.word.clone()));
+            for tm in &case.model.tag_models {
+                pats.extend(tm.char_ngram_model.iter().map(|d| d.ngram.clone()));
+            }
+            let target = (pats.len() / 64 + 1) * 64;
+            let mut i = 0u32;
+            while pats.len() < target {
+                let g: String = [char::from_u32(0xE000 + i % 500).unwrap(), char::from_u32(0xE300 + i / 500).unwrap()].iter().collect();
+                i += 1;
+                if pats.insert(g.clone()) {
+                    let wl = 2 * usize::from(case.model.char_window_size) - 1;
+                    case.model.char_ngram_model.push(vgen::mirror::NgramData { ngram: g, weights: vec![1; wl] });
+                }
+            }
+            ctx.count("models_whose_pattern_count_is_a_multiple_of_64", 1);
+        }
+        let case = case;
         let m = &case.model;
         count_model_facts(ctx, m);
         // tag prediction is also requested for models without any tag model (a legal, if unusual, use)
